@@ -31,6 +31,13 @@ enum Cmd {
     /// connect to the peer and open with "RX": the peer reads one byte and drops the connection
     /// with the other one unread, which resets it; the stream object is kept
     ConnectReset,
+    /// connect to the peer and open with "W": the peer writes one byte back; the stream is split,
+    /// the read half is dropped with that byte unread (which resets the connection) and the
+    /// write half is kept
+    ConnectHalfReset,
+    /// write one byte through the k-th live object if it is a kept write half of a reset
+    /// connection: must fail, and must not reach whatever connection now uses that port
+    WriteStale(usize),
     Drop(usize),
     /// split the k-th live object (a stream), shut its write half down, drop the write
     /// half and keep the read half: the stream stays live
@@ -46,6 +53,7 @@ enum Obj {
     Listener(TcpListener),
     Stream(TcpStream),
     ReadHalf(turmoil::net::tcp::OwnedReadHalf),
+    WriteHalf(turmoil::net::tcp::OwnedWriteHalf),
 }
 
 #[derive(Default)]
@@ -53,6 +61,8 @@ struct St {
     cmds: VecDeque<Cmd>,
     results: Vec<String>,
     incarnation: u32,
+    /// bytes the peer received on connections that never send any (beyond the opening letters)
+    peer_stray: Vec<u8>,
 }
 
 #[derive(Clone, Debug, PartialEq, Eq)]
@@ -63,6 +73,9 @@ enum MKind {
     HalfClosedStream,
     /// a stream object whose connection the peer has reset: not live, holds no port
     ResetStream,
+    /// the write half that was kept when the read half of a stream was dropped with unread data
+    /// (which resets the connection): not live, holds no port
+    ResetWriteHalf,
 }
 
 pub fn ports_scenario(ch: &mut Chooser, thorough: bool, reset_mode: bool) -> Exec {
@@ -80,10 +93,14 @@ pub fn ports_scenario(ch: &mut Chooser, thorough: bool, reset_mode: bool) -> Exe
     let st = Rc::new(RefCell::new(St::default()));
     let wake = Rc::new(Notify::new());
     // peer: accepts everything and holds each stream until it sees EOF
-    sim.host("peer", || async {
+    let st_peer = st.clone();
+    sim.host("peer", move || {
+        let st_peer = st_peer.clone();
+        async move {
         let l = TcpListener::bind(("0.0.0.0", 80)).await?;
         loop {
             let (mut s, _) = l.accept().await?;
+            let st_p = st_peer.clone();
             // hold the connection until the other side closes it, then let it go (so a
             // later connection may reuse the 4-tuple)
             tokio::task::spawn_local(async move {
@@ -92,19 +109,24 @@ pub fn ports_scenario(ch: &mut Chooser, thorough: bool, reset_mode: bool) -> Exe
                 let mut first = [0u8; 1];
                 match tokio::io::AsyncReadExt::read(&mut s, &mut first).await {
                     Ok(1) if first[0] == b'R' => return,
+                    Ok(1) if first[0] == b'W' => {
+                        let _ = tokio::io::AsyncWriteExt::write_all(&mut s, b"w").await;
+                    }
                     Ok(0) | Err(_) => return,
-                    _ => {}
+                    Ok(_) => st_p.borrow_mut().peer_stray.push(first[0]),
                 }
                 let mut b = [0u8; 8];
                 while let Ok(n) = tokio::io::AsyncReadExt::read(&mut s, &mut b).await {
                     if n == 0 {
                         break;
                     }
+                    st_p.borrow_mut().peer_stray.extend_from_slice(&b[..n]);
                 }
             });
         }
         #[allow(unreachable_code)]
         Ok(())
+        }
     });
     let (st_h, wk) = (st.clone(), wake.clone());
     sim.host("h", move || {
@@ -169,6 +191,29 @@ pub fn ports_scenario(ch: &mut Chooser, thorough: bool, reset_mode: bool) -> Exe
                             }
                             Err(e) => format!("err {}", errk(&e)),
                         },
+                        Cmd::ConnectHalfReset => match TcpStream::connect(("peer", 80)).await {
+                            Ok(mut s) => {
+                                let port = s.local_addr().unwrap().port();
+                                let w = tokio::io::AsyncWriteExt::write_all(&mut s, b"W").await;
+                                // there and back again: the peer's byte has arrived (and stays unread)
+                                tokio::time::sleep(std::time::Duration::from_millis(4)).await;
+                                let (r, wr) = s.into_split();
+                                drop(r);
+                                objs.push(Some(Obj::WriteHalf(wr)));
+                                format!("ok {port} write {}", if w.is_ok() { "ok" } else { "err" })
+                            }
+                            Err(e) => format!("err {}", errk(&e)),
+                        },
+                        Cmd::WriteStale(k) => {
+                            let live: Vec<usize> = (0..objs.len()).filter(|&i| objs[i].is_some()).collect();
+                            match live.get(k).and_then(|&i| objs[i].as_mut()) {
+                                Some(Obj::WriteHalf(w)) => match tokio::io::AsyncWriteExt::write_all(w, b"Z").await {
+                                    Ok(()) => "stale write ok".into(),
+                                    Err(e) => format!("stale write err {}", errk(&e)),
+                                },
+                                _ => "not a kept write half".into(),
+                            }
+                        }
                         Cmd::Drop(k) => {
                             let live: Vec<usize> = (0..objs.len()).filter(|&i| objs[i].is_some()).collect();
                             if let Some(&i) = live.get(k) {
@@ -248,7 +293,7 @@ pub fn ports_scenario(ch: &mut Chooser, thorough: bool, reset_mode: bool) -> Exe
     let mut obs: Vec<String> = vec![];
     let mut feats: Vec<&'static str> = vec![];
     let mut violation: Option<Violation> = None;
-    let in_use = |live: &Vec<(MKind, u16)>| -> BTreeSet<u16> { live.iter().filter(|x| x.0 != MKind::ResetStream).map(|x| x.1).collect() };
+    let in_use = |live: &Vec<(MKind, u16)>| -> BTreeSet<u16> { live.iter().filter(|x| !matches!(x.0, MKind::ResetStream | MKind::ResetWriteHalf)).map(|x| x.1).collect() };
 
     'run: for _ in 0..depth {
         // menu
@@ -257,6 +302,7 @@ pub fn ports_scenario(ch: &mut Chooser, thorough: bool, reset_mode: bool) -> Exe
                 ("udp bind :0".into(), Some(Cmd::UdpBind(0))),
                 ("tcp connect peer:80".into(), Some(Cmd::TcpConnect)),
                 ("tcp connect peer:80, send two bytes of which the peer reads one before it drops the connection (reset), keep the stream".into(), Some(Cmd::ConnectReset)),
+                ("tcp connect peer:80, the peer sends a byte, split, drop the read half with that byte unread (reset), keep the write half".into(), Some(Cmd::ConnectHalfReset)),
             ]
         } else {
             vec![
@@ -274,7 +320,9 @@ pub fn ports_scenario(ch: &mut Chooser, thorough: bool, reset_mode: bool) -> Exe
             menu.push((format!("drop live object #{k}"), Some(Cmd::Drop(k))));
         }
         if reset_mode {
-            // (no further letters)
+            if let Some(k) = live.iter().position(|x| x.0 == MKind::ResetWriteHalf) {
+                menu.push((format!("write one byte through live object #{k} (the kept write half of a reset connection)"), Some(Cmd::WriteStale(k))));
+            }
         } else if let Some(k) = live.iter().position(|x| x.0 == MKind::Stream) {
             menu.push((format!("split live object #{k} (a stream), shut down and drop its write half, keep the read half"), Some(Cmd::HalfClose(k))));
         }
@@ -328,12 +376,12 @@ pub fn ports_scenario(ch: &mut Chooser, thorough: bool, reset_mode: bool) -> Exe
         // expectation
         let used = in_use(&live);
         let range_full = (LO..=hi).all(|p| used.contains(&p));
-        let expect_panic = matches!(cmd, Cmd::UdpBind(0) | Cmd::TcpListen(0) | Cmd::TcpConnect | Cmd::ConnectReset | Cmd::SelfConn(..)) && range_full;
+        let expect_panic = matches!(cmd, Cmd::UdpBind(0) | Cmd::TcpListen(0) | Cmd::TcpConnect | Cmd::ConnectReset | Cmd::ConnectHalfReset | Cmd::SelfConn(..)) && range_full;
         st.borrow_mut().results.clear();
         st.borrow_mut().cmds.push_back(cmd);
         wake.notify_one();
         let mut panicked = None;
-        for _ in 0..if matches!(cmd, Cmd::SelfConn(..) | Cmd::ConnectReset) { 10 } else { 4 } {
+        for _ in 0..if matches!(cmd, Cmd::SelfConn(..) | Cmd::ConnectReset | Cmd::ConnectHalfReset) { 10 } else { 4 } {
             match vx_core::catch(|| sim.step()) {
                 Ok(Ok(_)) => {}
                 Ok(Err(e)) => {
@@ -423,6 +471,29 @@ pub fn ports_scenario(ch: &mut Chooser, thorough: bool, reset_mode: bool) -> Exe
                     break 'run;
                 }
             },
+            Cmd::ConnectHalfReset => match res.strip_suffix(" write ok").and_then(|x| x.strip_prefix("ok ")).and_then(|x| x.parse::<u16>().ok()) {
+                Some(port) if (LO..=hi).contains(&port) && !used.contains(&port) => {
+                    live.push((MKind::ResetWriteHalf, port));
+                    feats.push("reset-write-half-kept");
+                }
+                _ => {
+                    violation = Some(Violation::new(
+                        "duplicate-port",
+                        format!("`{desc}` returned `{res}`; expected a stream on an ephemeral port not in use (in use: {:?})", live),
+                    ));
+                    break 'run;
+                }
+            },
+            Cmd::WriteStale(_) => {
+                if !res.starts_with("stale write err") {
+                    violation = Some(Violation::new(
+                        "stale-handle",
+                        format!("`{desc}` returned `{res}`: the connection of that half was reset, the write must fail (live objects {:?})", live),
+                    ));
+                    break 'run;
+                }
+                feats.push("stale-write");
+            }
             Cmd::Drop(k) => {
                 if k < live.len() {
                     live.remove(k);
@@ -457,6 +528,13 @@ pub fn ports_scenario(ch: &mut Chooser, thorough: bool, reset_mode: bool) -> Exe
             live.iter().filter(|x| x.0 == MKind::Listener).count(),
             live.iter().filter(|x| matches!(x.0, MKind::Stream | MKind::HalfClosedStream)).count(),
         );
+        if let Some(b) = st.borrow().peer_stray.first().copied() {
+            violation = Some(Violation::new(
+                "stale-handle",
+                format!("after `{desc}` the peer has received the byte {:?} on a connection whose owner never wrote anything: it was written through a stale handle of an earlier connection on the same port (live objects {:?})", b as char, live),
+            ));
+            break 'run;
+        }
         if counts != want {
             violation = Some(Violation::new(
                 "table-counts",
